@@ -48,7 +48,7 @@ Print Assumptions split_work_unit_pairs.
 (* FULL STATEMENT, not yet proved (the executable model is tested against it on every run by
    Gql/Check.v component 1 = component 2, and against the implementation):
 
-   Theorem execution_equals_reference : forall S q root fuel sched,
+   execution_equals_reference : forall S q root fuel sched,
      snd (eval_ref S fuel q root) = [] ->          (* valid query, complete data, no failing resolver, enough fuel *)
      complete (run_sched fixed S fuel sched st0) = true ->   (* where init fixed S q root = inl st0 *)
      run fixed S fuel sched q root = Some (ROk (fst (eval_ref S fuel q root)))   (* up to key order *)
